@@ -1031,7 +1031,8 @@ impl Value {
 
     fn resolve_int(self) -> Result<Self, Error> {
         match self {
-            Value::Int(n) => Ok(Value::Int(n)),
+            // A logical type is read as its underlying type if the reader does not have it
+            Value::Int(n) | Value::Date(n) | Value::TimeMillis(n) => Ok(Value::Int(n)),
             Value::Long(n) => {
                 let n = i32::try_from(n).map_err(|e| Details::ZagI32(e, n))?;
                 Ok(Value::Int(n))
@@ -1042,8 +1043,16 @@ impl Value {
 
     fn resolve_long(self) -> Result<Self, Error> {
         match self {
-            Value::Int(n) => Ok(Value::Long(i64::from(n))),
-            Value::Long(n) => Ok(Value::Long(n)),
+            // A logical type is read as its underlying type if the reader does not have it
+            Value::Int(n) | Value::Date(n) | Value::TimeMillis(n) => Ok(Value::Long(i64::from(n))),
+            Value::Long(n)
+            | Value::TimeMicros(n)
+            | Value::TimestampMillis(n)
+            | Value::TimestampMicros(n)
+            | Value::TimestampNanos(n)
+            | Value::LocalTimestampMillis(n)
+            | Value::LocalTimestampMicros(n)
+            | Value::LocalTimestampNanos(n) => Ok(Value::Long(n)),
             other => Err(Details::GetLong(other).into()),
         }
     }
